@@ -111,6 +111,9 @@ func c13ObjToken(v reflect.Value) string {
 	var fs []string
 	for i := 0; i < e.NumField(); i++ {
 		tag := strings.Split(e.Type().Field(i).Tag.Get("json"), ",")[0]
+		if tag == "" || tag == "-" {
+			continue // not serialised: not part of the value token
+		}
 		f := e.Field(i)
 		switch f.Kind() {
 		case reflect.String:
